@@ -214,6 +214,8 @@ impl Field {
                     if modifier != 0 && from == *ty { quote!(($expr)) } else { quote!($expr) };
                 t.gen_expr(t.sub(t.cast(t.symbol(value, from), *ty), t.num(modifier)))
             }
+            // A fixed field is compared as a number, whatever its width.
+            Field::Integral { fixed_val: Some(_), .. } => quote!($expr),
             Field::Integral { width: 1, .. } => quote!($expr != 0),
             Field::Integral { .. } => quote!($expr),
             Field::EnumRef { ty, width, .. } => {
